@@ -39,6 +39,56 @@ fn fill_len() -> usize {
     FILL_LEN.with(|l| l.get())
 }
 
+/// A transport that hands out at most `max` bytes per read call (a serial line, a segmented socket).
+struct Segmented<'a> {
+    data: &'a [u8],
+    pos: usize,
+    max: usize,
+}
+impl<'a> vls_protocol::serde_bolt::io::Read for Segmented<'a> {
+    fn read(&mut self, buf: &mut [u8]) -> vls_protocol::serde_bolt::io::Result<usize> {
+        let n = buf.len().min(self.max).min(self.data.len() - self.pos);
+        buf[..n].copy_from_slice(&self.data[self.pos..self.pos + n]);
+        self.pos += n;
+        Ok(n)
+    }
+}
+
+/// Two copies of the frame (u32 length, type, body) back to back over a segmented transport: the
+/// raw reader returns the encoding unchanged both times and the decoding reader yields a message
+/// that encodes to the same bytes.
+pub fn framed_transport(bytes: &[u8], failures: &mut Vec<String>) {
+    let mut wire = vec![];
+    for _ in 0..2 {
+        wire.extend((bytes.len() as u32).to_be_bytes());
+        wire.extend_from_slice(bytes);
+    }
+    for max in [1usize, 64, 4096] {
+        let mut r = Segmented { data: &wire, pos: 0, max };
+        for round in 0..2 {
+            match msgs::read_raw(&mut r) {
+                Ok(b) if b == bytes => {}
+                Ok(b) => failures.push(format!("frame {} read in segments of <= {} bytes differs from what was sent ({} bytes, first difference at {:?})", round, max, b.len(), b.iter().zip(bytes.iter()).position(|(x, y)| x != y))),
+                Err(e) => failures.push(format!("frame {} over a transport with segments of <= {} bytes: raw read failed: {:?}", round, max, e)),
+            }
+        }
+        let mut r = Segmented { data: &wire, pos: 0, max };
+        for round in 0..2 {
+            match msgs::read(&mut r) {
+                // (what the decoded message must equal is checked on the unframed encoding; here
+                // it only has to be the same kind of message)
+                Ok(m) => {
+                    let v = m.inner().as_vec();
+                    if v.len() < 2 || v[..2] != bytes[..2] {
+                        failures.push(format!("frame {} decoded over segments of <= {} bytes is another message type", round, max));
+                    }
+                }
+                Err(e) => failures.push(format!("frame {} over segments of <= {} bytes: decoding read failed: {:?}", round, max, e)),
+            }
+        }
+    }
+}
+
 /// Run one case; if it contains a filler variant, size the filler so that the whole message is
 /// exactly `MAX_MESSAGE` bytes long.
 pub fn run_case_sized(check: fn(&[usize]) -> CaseOut, sel: &[usize]) -> CaseOut {
@@ -79,6 +129,8 @@ pub struct TypeInfo {
 pub struct CaseOut {
     pub failures: Vec<String>,
     pub oversize: bool,
+    /// the encoding (type prefix + body)
+    pub bytes: Vec<u8>,
     pub len: usize,
     pub observations: Vec<String>,
     pub id: u16,
@@ -92,7 +144,7 @@ fn enc<T: Encodable>(t: &T) -> Vec<u8> {
 
 impl CaseOut {
     pub fn new(bytes: &[u8], id: u16) -> CaseOut {
-        let mut o = CaseOut { failures: vec![], oversize: bytes.len() > 128 * 1024, len: bytes.len(), observations: vec![], id };
+        let mut o = CaseOut { failures: vec![], oversize: bytes.len() > 128 * 1024, bytes: bytes.to_vec(), len: bytes.len(), observations: vec![], id };
         if bytes.len() < 2 || u16::from_be_bytes([bytes[0], bytes[1]]) != id {
             o.fail("encoding does not start with the message id".into());
         }
@@ -757,7 +809,15 @@ pub fn main(tier: Tier) -> i32 {
     let results = par_map(&cases, nthreads(), |(ti, sel)| {
         let t = &reg[*ti];
         match catch(|| run_case_sized(t.check, sel)) {
-            Ok(o) => (o.failures, o.oversize, o.observations, o.len, None),
+            Ok(mut o) => {
+                // the base case and every single deviation also travel framed over a transport
+                // that delivers in segments
+                if !o.oversize && o.failures.is_empty() && sel.iter().filter(|v| **v != 0).count() <= 1 && o.len <= 4096 {
+                    let bytes = std::mem::take(&mut o.bytes);
+                    framed_transport(&bytes, &mut o.failures);
+                }
+                (o.failures, o.oversize, o.observations, o.len, None)
+            }
             Err(p) => (vec![], false, vec![], 0, Some(p)),
         }
     });
